@@ -251,39 +251,58 @@ def oracle_decode(hs, dec):
 
 # ---- end to end -----------------------------------------------------------------------------------
 
-async def e2e_case(md):
-    """request metadata -> handler sees it -> echoes it as initial and trailing metadata"""
+async def e2e_case(md, shape='normal'):
+    """request metadata -> handler sees it -> echoes it back.  shapes: 'normal' (initial metadata,
+    message, trailing metadata), 'trailers-only-error' (non-OK trailers-only response carrying the
+    metadata), 'trailers-only-ok' (streaming reply without messages: OK trailers-only)"""
     from grpclib.testing import ChannelFor
-    from grpclib.client import UnaryUnaryMethod
+    from grpclib.client import UnaryUnaryMethod, UnaryStreamMethod
+    from grpclib.const import Status
+    from grpclib.exceptions import GRPCError
     seen = {}
 
     async def handler(stream):
         await stream.recv_message()
         seen['req'] = list(stream.metadata.items())
-        await stream.send_initial_metadata(metadata=list(stream.metadata.items()))
-        await stream.send_message(b'ok')
-        await stream.send_trailing_metadata(metadata=list(stream.metadata.items()))
+        if shape == 'normal':
+            await stream.send_initial_metadata(metadata=list(stream.metadata.items()))
+            await stream.send_message(b'ok')
+            await stream.send_trailing_metadata(metadata=list(stream.metadata.items()))
+        elif shape == 'trailers-only-error':
+            await stream.send_trailing_metadata(status=Status.NOT_FOUND,
+                                                metadata=list(stream.metadata.items()))
+        else:
+            await stream.send_trailing_metadata(metadata=list(stream.metadata.items()))
 
-    svc = Service('v.S', {'M': (handler, 'UU')})
+    card = 'US' if shape == 'trailers-only-ok' else 'UU'
+    svc = Service('v.S', {'M': (handler, card)})
     async with ChannelFor([svc], codec=RawCodec()) as ch:
-        m = UnaryUnaryMethod(ch, '/v.S/M', bytes, bytes)
+        cls = UnaryStreamMethod if card == 'US' else UnaryUnaryMethod
+        m = cls(ch, '/v.S/M', bytes, bytes)
         async with m.open(metadata=md) as stream:
             await stream.send_message(b'x', end=True)
-            await stream.recv_message()
-            await stream.recv_trailing_metadata()
+            try:
+                if shape == 'normal':
+                    await stream.recv_message()
+                    await stream.recv_trailing_metadata()
+                else:
+                    await stream.recv_initial_metadata()
+            except GRPCError as e:
+                if shape != 'trailers-only-error' or e.status is not Status.NOT_FOUND:
+                    raise
             im = list(stream.initial_metadata.items())
             tm = list(stream.trailing_metadata.items())
-    return seen.get('req'), im, tm
+    return seen.get('req'), (im if shape == 'normal' else md), tm
 
 
-def run_e2e(mds):
+def run_e2e(cases):
     loop = asyncio.new_event_loop()
     asyncio.set_event_loop(loop)
     out = []
     try:
-        for md in mds:
+        for md, shape in cases:
             try:
-                out.append(loop.run_until_complete(asyncio.wait_for(e2e_case(md), 20)))
+                out.append(loop.run_until_complete(asyncio.wait_for(e2e_case(md, shape), 20)))
             except Exception as e:
                 out.append(('exc', type(e).__name__, str(e)[:100]))
     finally:
@@ -378,14 +397,18 @@ def run(ctx):
                                [[a, b] for a in (0, 1, 63, 64, 127, 128, 251, 255) for b in (0, 3, 15, 16, 252, 255)])]
     bins += [gen_bytes(rng) for _ in range(n // 4)]
     check_cases(ctx, res, encs, decs, bins)
-    # end to end: valid metadata through a real client/server pair
-    mds = [gen_valid_md(rng) for _ in range(ctx.n(60, 1500))]
-    for md, out in zip(mds, run_e2e(mds)):
+    # end to end: valid metadata through a real client/server pair, in three response layouts
+    shapes = ['normal', 'trailers-only-error', 'trailers-only-ok']
+    cases = [(gen_valid_md(rng), shapes[i % 3]) for i in range(ctx.n(90, 1500))]
+    for (md, shape), out in zip(cases, run_e2e(cases)):
         res.evaluations += 1
-        res.count('e2e')
+        res.count('e2e:' + shape)
+        res.signatures.add(('e2e', shape, tuple(k for k, _ in md)))
         if out[0] == 'exc' or not (out[0] == md and out[1] == md and out[2] == md):
-            res.oracle_failures.append({'case': {'op': 'e2e', 'md': md}, 'what': 'metadata changed end to end',
-                                        'signature': {'op': 'e2e', 'kind': 'changed'}, 'observed': out})
+            res.oracle_failures.append({'case': {'op': 'e2e', 'md': md, 'shape': shape},
+                                        'what': 'metadata changed end to end (%s response)' % shape,
+                                        'signature': {'op': 'e2e', 'kind': 'changed', 'shape': shape},
+                                        'observed': out})
     return res
 
 
@@ -403,9 +426,11 @@ def replay(ctx, case):
         check_cases(ctx, res, [], [], [unj(case['b'])])
     elif op == 'e2e':
         md = [(k, unj(v)) for k, v in case['md']]
-        out = run_e2e([md])[0]
+        shape = case.get('shape', 'normal')
+        out = run_e2e([(md, shape)])[0]
         res.evaluations = 1
         if out[0] == 'exc' or not (out[0] == md and out[1] == md and out[2] == md):
-            res.oracle_failures.append({'case': case, 'what': 'metadata changed end to end',
-                                        'signature': {'op': 'e2e', 'kind': 'changed'}, 'observed': out})
+            res.oracle_failures.append({'case': case, 'what': 'metadata changed end to end (%s response)' % shape,
+                                        'signature': {'op': 'e2e', 'kind': 'changed', 'shape': shape},
+                                        'observed': out})
     return res
